@@ -75,3 +75,21 @@ claim(
     "abstract interpretation of forward() then backward() to rational normal forms over a stencil domain, identity by cross-multiplication; syntax-tree def-use (taint) rule for the source classes",
     "DESIGN.md §5 C02",
 )
+
+claim(
+    "C21",
+    "proof",
+    "For every symmetry transform class in the symmetries module and every option value, __call__ interpreted on arrays of free symbolic entries equals (v + g.v)/2 entry-wise (polynomial identity), g being the documented reflection / rotation / transposition and an involution; invariance under g, idempotence, unchanged symmetric inputs and mean preservation are checked on the extracted output as well. Layouts: 2-D designs with the singleton axis in each position (square where required), 3-D boxes incl. a cube. Holds for all real inputs of those shapes; extrapolation to other sizes rests on the size-uniformity of flips/transposes. Floating-point rounding is not decided.",
+    TB + "; sa/ndarr.py model of squeeze/expand_dims/reversed slices/.T/jnp.flip/jnp.transpose on concrete-shape arrays",
+    "abstract interpretation on arrays of free symbols; entry-wise polynomial identity against the documented index-group element",
+    "DESIGN.md §5 C21",
+)
+
+claim(
+    "C08",
+    "other",
+    "Decides axis-relabelling equivariance of the solver code: one forward and one backward step of forward()/backward() are abstractly interpreted on scenes invariant under x->y->z->x (every material tier incl. full tensors, both conductivities, non-uniform metric atoms, CPML layers on the three min or max faces with kappa=1 and kappa!=1, PEC/PMC walls and periodic faces on all axes, abstract sources) and output component sigma(c), and each CPML memory variable of layer sigma(p), is compared as a polynomial identity with the relabelled form of component c / layer p; likewise the TFSF face injections of TFSFPlaneSource.update_E/update_H over 3 axes x 2 directions x forward/inverse x material tiers (real and complex incident fields), the Bloch ghost-cell correction, the oriented transverse-axis helper, the PEC/PMC hooks and the absorbing layers' interface slices. Equality of whole runs up to round-off, detectors and source-profile construction are not decided.",
+    TB + "; sa/sigma.py axis relabelling of atoms; sa/ndarr.py stencil/indicator array model; abstract source model of C02; jnp clamped out-of-bounds reads modelled only for isotropic (1,...) material arrays",
+    "abstract interpretation of one solver step to rational normal forms over a stencil domain; sibling comparison under the axis-relabelling group action (polynomial identity)",
+    "DESIGN.md §5 C08",
+)
